@@ -43,10 +43,23 @@ pub fn kind_name(k: &VKind) -> String {
 /// Violations whose kind is in `wanted` become findings of this property; the others are counted
 /// (they belong to another property's check, which runs the same engine).
 pub fn run_e2(ctx: &CheckCtx, res: &mut CheckResult, items: &[(&str, &str, Mode)], wanted: &[VKind], deadline_s: f64) {
+    run_e2_with(ctx, res, items, wanted, deadline_s, &family)
+}
+
+/// Same, with the family registry of the calling binary (worker processes are re-executions of the
+/// current executable, which must answer the `worker` sub-command with the same registry).
+pub fn run_e2_with(
+    ctx: &CheckCtx,
+    res: &mut CheckResult,
+    items: &[(&str, &str, Mode)],
+    wanted: &[VKind],
+    deadline_s: f64,
+    registry: &dyn Fn(&str) -> Box<dyn FamilyDyn>,
+) {
     let mut fams = Vec::new();
     let t0 = std::time::Instant::now();
     for (fname, set, mode) in items {
-        let fam = family(fname);
+        let fam = registry(fname);
         let left = deadline_s - t0.elapsed().as_secs_f64();
         let agg = run_family(fam.as_ref(), set, mode, nshards(), left.max(1.0));
         res.add_count("programs", agg.programs_run as u64);
